@@ -1876,6 +1876,8 @@ func c17RunOne(c *Ctx, h c17Hist, base string) *c17Out {
 		return c17RunPoll(c, h, base)
 	case "samedir":
 		return c17RunSameDir(c, h, base)
+	case "blank":
+		return c17RunBlank(c, h, base)
 	}
 	return c17RunFree(c, h, base)
 }
@@ -2090,6 +2092,9 @@ func checkC17(c *Ctx) {
 	}
 	for i := c.scale(40, 400); i > 0; i-- {
 		hs = append(hs, c17GenSameDir(r.Fork(), fmt.Sprintf("d%d", i)))
+	}
+	for i := c.scale(30, 300); i > 0; i-- {
+		hs = append(hs, c17GenBlank(r.Fork(), fmt.Sprintf("b%d", i)))
 	}
 	for i := 0; i < nKnown; i++ {
 		id := fmt.Sprintf("k%d", i)
